@@ -31,7 +31,7 @@ def main(argv=None) -> int:
     ap.add_argument("--tier", default=None)
     ap.add_argument("--seed", type=int, default=None)
     ap.add_argument("--replay", default=None)
-    a = ap.parse_args(argv)
+    a, rest = ap.parse_known_args(argv)
     if a.what == "setup":
         return setup()
     if a.tier:
@@ -43,7 +43,7 @@ def main(argv=None) -> int:
     if a.what == "selftest":
         from . import selftest
 
-        return selftest.main()
+        return selftest.main(rest)
     pid = a.what.upper()
     modname = f"vf.{pid.lower()}"
     if a.replay:
